@@ -415,20 +415,21 @@ def correspond(ctx):
         tc = rng.choice('dz'); H_ = 'T' if tc == 'd' else 'C'
         desc0 = {'typecode': tc, 'round': 'extra-%d' % it}
         # geqp3: A P = Q R with |R[i,i]| non-increasing
-        m = rng.randint(1, 5); nn = rng.randint(1, m)
-        G = rand(m, nn, tc); A1 = +G; jp = matrix(0, (nn, 1)); tau = matrix(0.0, (nn, 1), tc)
+        m = rng.randint(1, 5); nn = rng.randint(1, 6)          # tall, square and wide matrices
+        r_ = min(m, nn)
+        G = rand(m, nn, tc); A1 = +G; jp = matrix(0, (nn, 1)); tau = matrix(0.0, (r_, 1), tc)
         try:
             lapack.geqp3(A1, jp, tau)
             perm = [int(v) - 1 for v in jp]
             if sorted(perm) != list(range(nn)): viol('geqp3-permutation', 'geqp3: jpvt %r is not a permutation of 1..n' % list(jp), dict(desc0, A=list(G), m=m, n=nn))
             else:
-                R_ = [[complex(A1[i, j]) if j >= i else 0j for j in range(nn)] for i in range(nn)]
-                Qe = +A1; (lapack.orgqr if tc == 'd' else lapack.ungqr)(Qe, tau); Q_ = rows(Qe)
+                R_ = [[complex(A1[i, j]) if j >= i else 0j for j in range(nn)] for i in range(r_)]          # r x n upper trapezoidal
+                Qe = +A1[:, :r_]; (lapack.orgqr if tc == 'd' else lapack.ungqr)(Qe, tau); Q_ = rows(Qe)          # m x r
                 AP = [[complex(G[i, perm[j]]) for j in range(nn)] for i in range(m)]
                 chk('geqp3', dist(mm(Q_, R_), AP), mag(AP), 'geqp3: ||Q R - A P||', dict(desc0, A=list(G), m=m, n=nn))
-                chk('geqp3-orth', dist(mm(hh(Q_), Q_), ident(nn)), 1.0, 'geqp3 + orgqr: ||Q^H Q - I||', dict(desc0, A=list(G), m=m, n=nn))
-                dg = [abs(R_[i][i]) for i in range(nn)]
-                if any(dg[i] < dg[i + 1] * (1 - 1e-9) for i in range(nn - 1)): viol('geqp3-diagonal', 'geqp3: |R[i,i]| is not non-increasing: %r' % dg, dict(desc0, A=list(G), m=m, n=nn))
+                chk('geqp3-orth', dist(mm(hh(Q_), Q_), ident(r_)), 1.0, 'geqp3 + orgqr: ||Q^H Q - I||', dict(desc0, A=list(G), m=m, n=nn))
+                dg = [abs(R_[i][i]) for i in range(r_)]
+                if any(dg[i] < dg[i + 1] * (1 - 1e-9) for i in range(r_ - 1)): viol('geqp3-diagonal', 'geqp3: |R[i,i]| is not non-increasing: %r' % dg, dict(desc0, A=list(G), m=m, n=nn))
         except Exception as e: viol('raises-on-valid:geqp3', 'geqp3 raised %s (%s)' % (type(e).__name__, e), dict(desc0, A=list(G), m=m, n=nn))
         # gelqf + ormlq / unmlq: the full Q (n x n) applied to the identity; A = [L 0] Q
         m = rng.randint(1, 4); nn = rng.randint(m, 5)
